@@ -2,6 +2,7 @@ package sym
 
 import (
 	"fmt"
+	"os"
 	"go/constant"
 	"go/token"
 	"go/types"
@@ -89,6 +90,7 @@ type Exec struct {
 	inInit    bool
 	Debug     bool
 	curInstr  ssa.Instruction
+	lastBTrace []string
 }
 
 func NewExec(p *Program, harness string, params map[string]int, lim Limits, solverKind string) (*Exec, error) {
@@ -213,6 +215,9 @@ func (ex *Exec) overBudget() bool {
 
 func (ex *Exec) finishPath(s *State) {
 	ex.Stats.Paths++
+	if BTrace {
+		ex.lastBTrace = s.btrace
+	}
 	switch s.status {
 	case Done:
 		ex.Stats.PathsDone++
@@ -320,6 +325,9 @@ func (ex *Exec) posOf(in ssa.Instruction) string {
 	}
 	return fmt.Sprintf("%s@%s:%d", fn.String(), file, p.Line)
 }
+
+// BTrace records the branch trace of every path (debugging aid).
+var BTrace = os.Getenv("SYMGO_BTRACE") != ""
 
 type unsupportedErr string
 
@@ -757,6 +765,9 @@ func (ex *Exec) step(s *State, fr *Frame, in ssa.Instruction, pend *pending) {
 	case *ssa.If:
 		c := ex.val(s, fr, x.Cond).(*Term)
 		tk := ex.decide(s, c, pend)
+		if BTrace {
+			s.btrace = append(s.btrace, fmt.Sprintf("%s %v", ex.posOf(in), tk))
+		}
 		ex.jump(s, fr, tk)
 	case *ssa.Jump:
 		ex.jump(s, fr, true)
